@@ -239,6 +239,11 @@ def rule_lim(ctx: Ctx) -> RuleResult:
                           f"the compared quantity `{norm(oside[0])}` is not the size of one collection: members can be "
                           f"counted twice or not at all", n.lineno)
                     continue
+                if cname == "MAX_STRING_LENGTH" and not (isinstance(lens[0], ast.Call) and lens[0].args and isinstance(lens[0].args[0], ast.Name)):
+                    rr.ob(m.relpath, where, text, st, VIOLATED,
+                          f"`{norm(lens[0])[:60]}` is not the number of characters of the string itself (an encoded or escaped form is "
+                          f"longer for non-ASCII text: \"Санкт-Петербург\" has 15 characters and 29 UTF-8 bytes)", n.lineno)
+                    continue
                 lt = norm(lens[0])
                 cval = lambda k: _eval_cmp(n, {lt: k, norm(cside[0]): val})
                 if cval(val) is None:
@@ -546,6 +551,19 @@ def rule_dup1(ctx: Ctx) -> RuleResult:
     if not renames:
         rr.instances += 1
         rr.ob(f.relpath, f.qualname, "set_raw_name", "duplicates are renamed", VIOLATED, "no renaming path at all", lp.lineno)
+    # the counter belongs to this call: it starts empty every time names are fixed
+    rr.instances += 1
+    cdefs = [n for n in walk_no_nested(f.node) if isinstance(n, (ast.Assign, ast.AnnAssign)) and getattr(n, "value", None) is not None
+             and isinstance((n.targets[0] if isinstance(n, ast.Assign) else n.target), (ast.Name, ast.Attribute))
+             and "counter" in norm(n.targets[0] if isinstance(n, ast.Assign) else n.target)]
+    fresh = bool(cdefs) and all(isinstance(d.value, (ast.Call, ast.Dict)) and not any(
+        isinstance(x, ast.Attribute) and isinstance(x.value, ast.Name) and x.value.id == "self" for x in ast.walk(d.value)) and
+        isinstance((d.targets[0] if isinstance(d, ast.Assign) else d.target), ast.Name) for d in cdefs)
+    rr.ob(f.relpath, f.qualname, norm(cdefs[0])[:60] if cdefs else "counter", "the count of names starts from zero each time the "
+          "names are fixed: naming the same registry again (another framework, another layout) gives the same names",
+          DISCHARGED if fresh else VIOLATED, "a fresh local counter" if fresh else
+          "the counter lives on the registry (or outside the call): counts of an earlier naming pass are still there, and from the "
+          "second pass on every model gets its index appended", f.node.lineno)
     # generate_names calls it after all names exist
     g = prog.func("json_to_models/registry.py", "ModelRegistry.generate_names")
     rr.instances += 1
@@ -1047,4 +1065,42 @@ def rule_kw1(ctx: Ctx) -> RuleResult:
           DISCHARGED if ok2 else VIOLATED, "the remainder of the input is merged in" if ok2 else
           f"the remainder of `{p}` is not part of the returned mapping {parts}: arguments outside the ordering table (e.g. alias, "
           f"default) are dropped", rets[-1].lineno)
+    return rr
+
+
+# ---------------------------------------------------------------------------------------------------------------
+def rule_annot1(ctx: Ctx) -> RuleResult:
+    """ANNOT-1: the annotation text produced by the type renderer reaches the field line as it is."""
+    rr = RuleResult("ANNOT-1", "the rendered annotation is emitted verbatim", floor=1)
+    prog = ctx.prog
+    base = prog.cls(BASE, "GenericModelCodeGenerator")
+    n = 0
+    for k in prog.subclasses(base):
+        for f in k.methods.get("field_data", []):
+            # the local that receives the text of metadata_to_typing(...)
+            tv = None
+            for a in walk_no_nested(f.node):
+                if isinstance(a, ast.Assign) and isinstance(a.value, ast.Call) and norm(a.value.func).endswith("metadata_to_typing") \
+                        and isinstance(a.targets[0], ast.Tuple) and len(a.targets[0].elts) == 2:
+                    tv = norm(a.targets[0].elts[1])
+            if tv is None:
+                continue
+            n += 1
+            rr.instances += 1
+            redefs = [a for a in walk_no_nested(f.node) if isinstance(a, (ast.Assign, ast.AugAssign)) and not (
+                isinstance(a, ast.Assign) and isinstance(a.value, ast.Call) and norm(a.value.func).endswith("metadata_to_typing"))
+                and any(norm(t) == tv for t in (a.targets if isinstance(a, ast.Assign) else [a.target]))]
+            emitted = [v for d in walk_no_nested(f.node) if isinstance(d, ast.Dict) for k_, v in zip(d.keys, d.values)
+                       if isinstance(k_, ast.Constant) and k_.value == "type"]
+            plain = all(norm(v) == tv for v in emitted) and bool(emitted)
+            ok = not redefs and plain
+            rr.ob(f.relpath, f.qualname, f"'type': {norm(emitted[0])[:40] if emitted else '?'}",
+                  "the text of the annotation (with the quoted members of a Literal in it) is not rewritten between the type renderer "
+                  "and the field line", DISCHARGED if ok else VIOLATED,
+                  "emitted as rendered" if ok else
+                  (f"`{norm(redefs[0])[:60]}` rewrites the rendered annotation: string members of a Literal are changed with it "
+                   f"(NFKC turns the ligature in \"ﬁle\" into \"file\")" if redefs else "the emitted type is not the rendered text"),
+                  f.node.lineno)
+    if n < 1:
+        raise AnalysisError("ANNOT-1: no field_data renders an annotation through metadata_to_typing")
     return rr
